@@ -36,6 +36,7 @@ pub mod c06;
 pub mod c07;
 pub mod c15;
 pub mod c17;
+pub mod c19;
 pub mod c20;
 
 pub fn get(id: &str) -> Option<PropDef> {
@@ -47,6 +48,7 @@ pub fn get(id: &str) -> Option<PropDef> {
         "C07" => Some(c07::def()),
         "C15" => Some(c15::def()),
         "C17" => Some(c17::def()),
+        "C19" => Some(c19::def()),
         "C20" => Some(c20::def()),
         _ => None,
     }
